@@ -471,10 +471,13 @@ async fn child_run(rf: u8, lines: Vec<String>) -> Result<Vec<(String, String)>, 
     let mut results: HashMap<usize, Result<String, String>> = HashMap::new();
     let mut handles = Vec::new();
     let mut restart_cases = Vec::new();
+    let sem = Arc::new(tokio::sync::Semaphore::new(40)); // cases in flight (each has a replicator polling X)
     for c in cases.drain(..) {
         if c.restart { restart_cases.push(c); continue; }
         let sh2 = sh.clone();
+        let sem2 = sem.clone();
         handles.push(tokio::spawn(async move {
+            let _permit = sem2.acquire_owned().await;
             let mut c = c;
             let t0 = Instant::now();
             let r = match tokio::time::timeout(Duration::from_secs(240), run_case(&sh2, &mut c)).await { Ok(r) => r, Err(_) => Err("case timed out".into()) };
